@@ -28,7 +28,8 @@ def run_one(cache, s, tape):
           "repr": safe_repr(real)[:300]}
     if not exc:
         try:
-            ev["vok"] = not d42.validate(real, val).has_errors()
+            from .common import timed
+            ev["vok"] = timed(lambda: not d42.validate(real, val).has_errors(), True)
         except Exception:
             ev["vok"] = False
         ev["rep"], ev["v"] = try_abs(am.a_value, val)
@@ -112,7 +113,8 @@ def main(chk):
                 ev = {"s": s, "tape": [], "exc": exc, "vok": True, "rep": False, "v": [], "repr": safe_repr(real)[:300]}
                 if not exc:
                     try:
-                        ev["vok"] = not __import__("d42").validate(real, val).has_errors()
+                        from .common import timed
+                        ev["vok"] = timed(lambda: not __import__("d42").validate(real, val).has_errors(), True)
                     except Exception:
                         ev["vok"] = False
                     ev["rep"], ev["v"] = try_abs(am.a_value, val)
